@@ -249,6 +249,19 @@ def strip_inl(t):
     return go(t)
 
 
+def _is_truth_value(t):
+    """the term is True or False whatever its operands: bool(x), not x, a comparison, isinstance(...)"""
+    if t[0] in ("not", "cmp"):
+        return True
+    if t[0] == "const":
+        return isinstance(t[1], bool)
+    if t[0] == "call" and t[1] in ("builtins.bool", "builtins.isinstance", "builtins.callable", "builtins.hasattr"):
+        return True
+    if t[0] == "bool":
+        return all(_is_truth_value(x) for x in t[2])
+    return False
+
+
 def mkcmp(op, l, r):
     """`m is None` / `m is not None` on a regex test result are `not m` / `m`."""
     if op in ("Is", "IsNot", "Eq", "NotEq") and r == ("const", None) and is_regex_test(l):
@@ -259,6 +272,13 @@ def mkcmp(op, l, r):
             return ("const", op == "IsNot")
         if l == ("const", None):
             return ("const", op == "Is")
+    # a truth value compared with True / False is itself or its negation
+    if op in ("Is", "IsNot", "Eq", "NotEq") and r[0] == "const" and isinstance(r[1], bool) and _is_truth_value(l):
+        same = (op in ("Is", "Eq")) == r[1]
+        if same:
+            return l
+        neg = mknot(l)
+        return neg if _is_truth_value(neg) else ("call", "builtins.bool", (neg,), ())
     # comparisons are kept in their positive spelling: a != b is not (a == b), x is None is not (x is not None)
     if op in ("NotEq", "NotIn"):
         return ("not", ("cmp", op[3:], l, r))
@@ -590,8 +610,10 @@ class _State(object):
 
     def try_(self, st):
         before = dict(self.env)
+        conds_before = list(self.conds)
         self.block(st.body)
         body_live = self.live
+        live_handlers = []
         for h in st.handlers:
             hs = _State(self.ex, self.module, dict(before), self.depth)
             hs.rets = self.rets
@@ -600,11 +622,30 @@ class _State(object):
             hs.conds = self.conds + [(("raises", exc), True)]
             hs.block(h.body)
             if hs.live:
+                live_handlers.append(hs)
+                if not body_live:
+                    continue
                 # handler falls through: merge conservatively
                 for k, v in hs.env.items():
                     if self.env.get(k) != v:
                         self.env[k] = ("phi", ("raises", exc), v, self.env.get(k, ("unbound", k)))
                 self.live = True
+        if not body_live and live_handlers:
+            # every path through the body left the function: what follows the statement runs only after a caught exception
+            # (try: return X / except E: pass / return Y   is   try: return X / except E: return Y)
+            first = live_handlers[0]
+            self.live = True
+            if len(live_handlers) == 1:
+                self.env = first.env
+                self.conds = first.conds
+            else:
+                env = dict(first.env)
+                for other in live_handlers[1:]:
+                    for k, v in other.env.items():
+                        if env.get(k) != v:
+                            env[k] = ("unknown", "set differently by two handlers")
+                self.env = env
+                self.conds = conds_before + [(("raises", "|".join(sorted(h.conds[-1][0][1] for h in live_handlers))), True)]
         if body_live or self.live:
             self.live = True
             self.block(st.orelse)
